@@ -9,7 +9,7 @@ CONSTANTS
   Schemes <- SchemesAll
   MaxSchemes = 3
   MaxHistory = 2
-  MaxBaseQ = 3
+  MaxBaseQ = 2
   MaxPatQ = 2
 INVARIANTS PathHolds OrderIndependent QueryHolds SchemeHolds RawQueryRoundTrip
 CHECK_DEADLOCK FALSE
